@@ -430,6 +430,24 @@ func runMemCase(c *memCase) {
 		}
 		c.Obs = append(c.Obs, ob)
 	}
+	// "gone on Close": every case ends with an unfaulted Close; if that Close reports success - whatever failed before, including
+	// earlier Closes that an injected fault made fail - nothing of the secret may remain mapped or locked
+	for j := len(c.Ops) - 1; j >= 0 && j < len(c.Obs); j-- {
+		if c.Ops[j].K != "close" {
+			continue
+		}
+		// (protectedmemory only: memguard's core unmaps through its own memcall, which the shadow does not see)
+		if c.Obs[j].R == 0 && len(c.Ops[j].Plan) == 0 && sec != nil && c.Impl == "protectedmemory" {
+			for _, rg := range mc.regions {
+				if rg.mapped {
+					viol("op %d: Close returned nil, yet pages of the secret are still mapped (locked=%v, protection %d): an earlier failed Close cannot be made good",
+						j, rg.locked, rg.prot)
+					break
+				}
+			}
+		}
+		break
+	}
 }
 
 // memStuck counts operations that never returned; after a few the run stops early (every further case would wait as well)
